@@ -12,7 +12,7 @@ LEVEL_TEXT = ("Lean theorems over the operation sequence of WriteResult and ever
               "path holds the earlier content or the complete new result (and then the .query file holds the query), for every earlier "
               "state, result and crash point; with append earlier bytes are a prefix of every later state and a complete run adds the "
               "header only to an absent/empty file; tied to the code by running the real WriteResult under strace and comparing the "
-              "syscall sequence on the outfile paths with the model's operation list, plus SIGKILL injection at operation boundaries; tie G: WriteResult, writeQueryFile, getOutfileFD, resultWriteUnformatted(Header) are translated on every run with every file operation recorded in order (C15_generated_writeresult_is_model_ops: when no operation fails the recorded history is the model's operation list, for every query, result and earlier file system; C15_generated_no_half_written: the crash theorem on the translated code), and the driver runs the translated WriteResult on every case; c15.race: the client's two writers of one outfile (periodic reporter, final report) on the real GlobalGroupSet — the outfile is the single-writer result the moment the final write returns; a run whose syscall sequence no longer matches the model is killed at each of its file operations")
+              "syscall sequence on the outfile paths with the model's operation list, plus SIGKILL injection at operation boundaries; tie G: WriteResult, writeQueryFile, getOutfileFD, resultWriteUnformatted(Header) are translated on every run with every file operation recorded in order (C15_generated_writeresult_is_model_ops: when no operation fails the recorded history is the model's operation list, for every query, result and earlier file system; C15_generated_no_half_written: the crash theorem on the translated code; C15_generated_writeresult_never_panics, C15_generated_failures_leave_a_prefix, C15_generated_no_half_written_under_failures: whichever file operations fail, the translated function returns, what it performed is a prefix of the model's list - all of it when no error is reported - and a kill at any point of such a run leaves the outfile old or complete), and the driver runs the translated WriteResult on every case; c15.race: the client's two writers of one outfile (periodic reporter, final report) on the real GlobalGroupSet — the outfile is the single-writer result the moment the final write returns; a run whose syscall sequence no longer matches the model is killed at each of its file operations")
 TRUSTED = ["Lean 4 kernel", "axioms: propext, Quot.sound, Classical.choice (at most)", "overlay harness + dtmodel driver + this diff", "strace", "Go->Lean translator (unit Outfile: os.OpenFile / WriteString / os.Rename / os.Remove become recorded operations whose failure is the parameter ext.ioErr, os.Stat and the rows of GroupSet.result are parameters, a nil query.Outfile is a guarded dereference) with its prelude GoRT",
            "modelled not verified: the OS (rename is atomic, a killed process loses nothing already written, O_TRUNC/O_APPEND semantics), "
            "fmt %f/%d rendering (integer-valued aggregates only), result row order for equal order keys (generated keys are distinct)"]
